@@ -152,8 +152,13 @@ def _run_injection(lib, variant, ck, case):
   zc = None
   try:
     mg.apply_state(lib, m, d, seed)
-    for _ in range(presteps):
-      lib.mj_step(m, d)
+    try:
+      for _ in range(presteps):
+        lib.mj_step(m, d)
+    except mj.MjError as e:
+      # degenerate model (e.g. two coincident joints without armature): the engine refuses the regular state already
+      ck.discard('model raises mju_error on a regular state (%s)' % str(e)[:40])
+      return
     w = warn_view(lib, d)
     if np.any(w[[W['pos'], W['vel'], W['acc']], 1]):
       ck.discard('unstable-before-injection')
@@ -223,7 +228,9 @@ def _run_injection(lib, variant, ck, case):
         continue
       v = final_val(target, idx)
       nonfin = v != v or abs(v) == float('inf')
-      huge = abs(v) >= 1e299
+      # a finite huge force (1e300) can be cancelled by a constraint force of the same size (observed: hinge + connect),
+      # so only non-finite forces are required to end in BADQACC
+      huge = False
       if target == 'qfrc_applied' and (nonfin or huge):
         sure_force = True
       if target == 'xfrc_applied':
@@ -291,7 +298,7 @@ def _run_injection(lib, variant, ck, case):
     if not noreset:
       acc_d = bool(w[W['acc'], 1])
       did_reset = bool(w[W['pos'], 1] or w[W['vel'], 1] or acc_d) and float(d.time) <= dt * (1 + 1e-12)
-      late_force = any(f != 'ctrl' for f, i, v in step_inputs)
+      late_force = bool(step_inputs)      # inputs (ctrl or forces) written after a reset in mj_step1
       ref_acc = False
       # reference: a freshly reset mjData stepped once (reset clears state, ctrl, applied forces, warm start, time).
       # Inputs written between mj_step1 and mj_step2 survive a reset that happened in mj_step1 (bad qpos/qvel); a reset
@@ -338,7 +345,7 @@ def _run_injection(lib, variant, ck, case):
                             bucket='reset-BADQACC')
         else:
           if sure_force:
-            raise Violation('nan/inf/1e300 applied force on a movable dof but BADQACC was not raised [variant=%s]' % variant,
+            raise Violation('nan/inf applied force on a movable dof but BADQACC was not raised [variant=%s]' % variant,
                             bucket='missing-BADQACC')
           if abs(float(d.time) - (t0 + dt)) > 1e-9 * (1 + abs(t0)):
             raise Violation('no warning but time went %r -> %r' % (t0, float(d.time)), bucket='time')
@@ -383,7 +390,7 @@ def _run_injection(lib, variant, ck, case):
       if bp < 0 and bv < 0 and (dnum[W['pos']] or dnum[W['vel']]):
         raise Violation('autoreset off: spurious BADQPOS/BADQVEL', bucket='spurious-warning')
       if sure_force and bp < 0 and bv < 0 and dnum[W['acc']] < 1:
-        raise Violation('autoreset off: nan/inf/1e300 force but BADQACC did not increase', bucket='missing-BADQACC')
+        raise Violation('autoreset off: nan/inf force but BADQACC did not increase', bucket='missing-BADQACC')
       if dnum[W['acc']]:
         reached = True
       # documented: the flag disables the automatic reset -> time keeps running, warnings are not cleared
@@ -588,7 +595,11 @@ def run_forward(lib, variant, ck, case):
   d = lib.make_data(m)
   try:
     mg.apply_state(lib, m, d, seed)
-    lib.mj_forward(m, d)
+    try:
+      lib.mj_forward(m, d)
+    except mj.MjError as e:
+      ck.discard('model raises mju_error on a regular state (%s)' % str(e)[:40])
+      return
     val = VAL[vk][1](M)
     if target == 'all-qpos':
       d.qpos[:] = val
